@@ -103,7 +103,7 @@ pub trait RiRefImpl {
 		if self.path().is_absolute() == other.path().is_absolute() {
 			loop {
 				match (self_segments.peek(), base_segments.peek()) {
-					(Some(a), Some(b)) if a.as_pct_str() == b.as_pct_str() => {
+					(Some(a), Some(b)) if a.as_pct_str().bytes().eq(b.as_pct_str().bytes()) => {
 						base_segments.next();
 						self_segments.next();
 					}
